@@ -141,7 +141,7 @@ func (v *DeliverScopeVariables) Get(s context.Scope, name string) (value.Value, 
 		return &value.Boolean{Value: false}, nil
 	case REQ_BACKEND_NAME:
 		var name string
-		if v.ctx.Backend != nil {
+		if v.ctx.Backend != nil && v.ctx.Backend.Value != nil {
 			name = v.ctx.Backend.Value.Name.Value
 		}
 		return &value.String{Value: name}, nil
